@@ -127,25 +127,45 @@ def int_shim(x=0, *a):
     if builtins.isinstance(x, SSeq):
         if x.concrete():
             return builtins.int(x.real(), *a)
-        if a and a[0] != 10:
-            raise cur()._raise(Unsupported("int() with base on symbolic text"))
+        base = a[0] if a else 10
+        if base not in (8, 10, 16):
+            raise cur()._raise(Unsupported(f"int() with base {base} on symbolic text"))
         s = x.strip()
         its = _items_of(s)
         if its and in_set(its[0], (43, 45)):
             raise cur()._raise(Unsupported("signed symbolic integer literal"))
         if not its:
-            raise ValueError("invalid literal for int() with base 10: ''")
+            raise ValueError(f"invalid literal for int() with base {base}: ''")
         total = z3.IntVal(0)
         for c in its:
             if in_set(c, (95,)):
                 raise cur()._raise(Unsupported("underscore in symbolic integer literal"))
-            if not in_range(c, 48, 57):
+            if in_range(c, 48, 57 if base >= 10 else 55):
+                d = term_of(c) - 48
+            elif base == 16 and in_range(c, 97, 102):
+                d = term_of(c) - 87
+            elif base == 16 and in_range(c, 65, 70):
+                d = term_of(c) - 55
+            else:
                 if builtins.isinstance(s, SStr) and builtins.isinstance(c, SInt) and not (c <= 0xFF):
                     raise cur()._raise(Unsupported("non-Latin-1 digit in symbolic integer literal"))
-                raise ValueError("invalid literal for int() with base 10")
-            total = total * 10 + (term_of(c) - 48)
+                raise ValueError(f"invalid literal for int() with base {base}")
+            total = total * base + d
         return SInt(z3.simplify(total))
     return builtins.int(x, *a)
+
+
+def chr_shim(x):
+    if builtins.isinstance(x, SInt):
+        return SStr([x])
+    return builtins.chr(x)
+
+
+def nulljoin_shim(parts):
+    out = []
+    for p in parts:
+        out.extend(_items_of(p))
+    return SStr(out)
 
 
 class SRange:
